@@ -1,5 +1,7 @@
 /- driver protocol for Model/Selection.lean (C12) -/
 import MdVerif.Model.Selection
+import MdVerif.Model.SelScan
+import MdVerif.Generated.Tables
 namespace MdVerif.Driver.SelP
 open MdVerif.Sel
 
@@ -51,6 +53,9 @@ def view (kvs : List (String × Val)) : AtomView := fun k => (kvs.find? (·.1 ==
 def showErr : Err → String
   | .parse => "parse" | .literalTruth => "literal" | .syntax => "syntax" | .type => "type"
 
+def scanOps : List String := MdVerif.Generated.selOps.map (·.1)
+def scanKws : List String := MdVerif.Generated.selKeywords.flatMap (·.2)
+
 def handleSel : List String → String
   | ["sel", toks, atoms] =>
     match (toks.splitOn ";").mapM parseTok, (if atoms == "-" then some [] else (atoms.splitOn "|").mapM parseAtom) with
@@ -61,6 +66,21 @@ def handleSel : List String → String
         match select (as.map view) e with
         | .ok l => "OK " ++ ",".intercalate (l.map toString)
         | .error x => "ERR " ++ showErr x
+    | _, _ => "bad-op"
+  | ["selraw", hex, atoms] =>
+    -- the text of the selection (hex-encoded), scanned by the model with the operator / keyword tables regenerated from the source
+    match unhex hex.toList, (if atoms == "-" then some [] else (atoms.splitOn "|").mapM parseAtom) with
+    | some cs, some as =>
+      match scan scanOps scanKws cs with
+      | .error .unmodelled => "UNMODELLED"
+      | .error .parse => "ERR parse"
+      | .ok ts =>
+        match parse ts with
+        | .error e => "ERR " ++ showErr e
+        | .ok e =>
+          match select (as.map view) e with
+          | .ok l => "OK " ++ ",".intercalate (l.map toString)
+          | .error x => "ERR " ++ showErr x
     | _, _ => "bad-op"
   | _ => "bad-op"
 
